@@ -338,6 +338,9 @@ func templateForms() []form {
 			tf("typeexpr", "type "+t, "{% type U "+t+" %}"), tf("typeexpr", "case "+t, "{% switch x.(type) %}{% case "+t+" %}{% end %}"))
 	}
 	f = append(f, calleeForms('t')...)
+	f = append(f, positionForms()...)
+	_, scaleT := scaleForms()
+	f = append(f, scaleT...)
 	for _, e := range exprs {
 		f = append(f, tf("exprs", "show "+e, "{{ "+e+" }}"), tf("exprs", "short "+e, "{% v := "+e+" %}"), tf("exprs", "if "+e, "{% if "+e+" %}{% end %}"),
 			tf("exprs", "arg "+e, "{{ P("+e+") }}"), tf("exprs", "index "+e, "{{ s["+e+"] }}"), tf("exprs", "stmt "+e, "{% "+e+" %}"),
@@ -505,6 +508,117 @@ func nilConvForms() []form {
 			gf("nilconv", "global-variadic "+t, "FV("+c+")"), gf("nilconv", "spread "+t, "func(a ..."+t+") {}([]"+t+"{"+c+"}...)"))
 	}
 	return out
+}
+
+// Position-constrained statements: statements that must be the first of the file, unique, at the top level or after an
+// opener — each preceded and followed by every kind of insignificant or nearly insignificant node. They go to the roles
+// in which the subject is the beginning of a file (and the files they refer to exist and parse, so that the build gets as
+// far as the type checker and the emitter).
+var insignificant = []string{
+	"{%% %%}", "{%%%%}", "{%% \n %%}", "{%% // c\n %%}", "{%% /* c */ %%}", "{%% ; %%}", "{%% ;;\n; %%}", "{%% {} %%}", "{%% var _ = 0 %%}",
+	"{# #}", "{##}", "{# {% extends \"layout.html\" %} #}", " ", "\n", "\t\r\n ", "\ufeff", "{% raw %}{% end raw %}", "{% raw %}{% end %}", "{% raw %} {% end raw %}",
+	"{{ }}", "{% %}", "{% /* c */ %}", "{% // c\n %}", "{% ; %}", "{{ \"\" }}", "{% show \"\" %}", "<!-- c -->", "x", "{% if false %}{% end %}", "{% _ = 0 %}",
+	"{%% %%}{%% %%}", "{%% %%}{# #}", "{# #}{%% %%}", " {%% %%} ", "\n{%%\n%%}\n",
+}
+
+// {name, the constrained statement, what follows it}
+var constrained = [][3]string{
+	{"extends", "{% extends \"layout.html\" %}", "{% macro M %}x{% end %}"},
+	{"extends-in-statements", "{%% extends \"layout.html\" %%}", "{% macro M %}x{% end %}"},
+	{"extends-then-statements", "{% extends \"layout.html\" %}", "{%% var V = 1 %%}{% macro M %}{{ V }}{% end %}"},
+	{"extends-alone", "{% extends \"layout.html\" %}", ""},
+	{"extends-twice", "{% extends \"layout.html\" %}", "{% extends \"layout.html\" %}{% macro M %}x{% end %}"},
+	{"extends-import", "{% extends \"layout.html\" %}", "{% import \"m.html\" %}{% macro M %}{{ MM() }}{% end %}"},
+	{"import", "{% import \"m.html\" %}", "{{ MM() }}"},
+	{"import-in-statements", "{%% import \"m.html\" %%}", "{{ MM() }}"},
+	{"import-twice", "{% import \"m.html\" %}", "{% import n \"n.html\" %}{{ MM() }}{{ n.NN() }}"},
+	{"import-for", "{% import \"m.html\" for MM %}", "{{ MM() }}"},
+	{"macro", "{% macro A %}a{% end macro %}", "{{ A() }}"},
+	{"var", "{% var V = 1 %}", "{{ V }}"},
+	{"end", "{% end %}", ""},
+	{"else", "{% else %}", "{% end %}"},
+	{"case", "{% switch 1 %}", "{% case 1 %}x{% end %}"},
+	{"using", "{% show itea; using %}", "u{% end using %}"},
+	{"raw", "{% raw %}", "r{% end raw %}"},
+}
+
+func positionForms() []form {
+	var out []form
+	for _, c := range constrained {
+		out = append(out, tf("position", c[0], c[1]+c[2]))
+		for _, i := range insignificant {
+			out = append(out,
+				tf("position", c[0]+" after "+i, i+c[1]+c[2]),
+				tf("position", c[0]+" before "+i, c[1]+i+c[2]),
+				tf("position", c[0]+" between "+i, i+c[1]+i+c[2]),
+				tf("position", c[0]+" after twice "+i, i+i+c[1]+c[2]),
+				tf("position", c[0]+" at end "+i, c[1]+c[2]+i))
+		}
+	}
+	return out
+}
+
+// Scale: whole programs and templates with n distinct things of a kind, n around the 127/128 and 255/256 boundaries of
+// the 8-bit operands of the instruction set.
+var scaleSizes = []int{126, 127, 128, 129, 130, 200, 254, 255, 256, 257}
+
+func rep(n int, f func(i int) string) string {
+	var sb strings.Builder
+	for i := 0; i < n; i++ {
+		sb.WriteString(f(i))
+	}
+	return sb.String()
+}
+
+func scaleForms() (decl, tmpl []form) {
+	for _, n := range scaleSizes {
+		id := func(p string) func(int) string { return func(i int) string { return fmt.Sprintf(p, i) } }
+		prog := func(name, decls, body string) {
+			decl = append(decl, df("scale", fmt.Sprintf("%s-%d", name, n), "package main\n"+decls+"func main() {\n"+body+"}\n"))
+		}
+		prog("functions", rep(n, id("func f%d() {}\n")), rep(n, id("f%d()\n")))
+		prog("functions-with-results", rep(n, id("func f%d() int { return 1 }\n")), "s := 0\n"+rep(n, id("s += f%d()\n"))+"_ = s\n")
+		prog("function-values", rep(n, id("func f%d() {}\n")), rep(n, id("g%[1]d := f%[1]d; g%[1]d()\n")))
+		prog("deferred-functions", rep(n, id("func f%d() {}\n")), rep(n, id("defer f%d()\n")))
+		prog("function-literals", "", rep(n, id("func() { _ = %d }()\n")))
+		prog("global-variables", rep(n, id("var v%d = 1\n")), rep(n, id("v%d++\n")))
+		prog("global-strings", rep(n, id("var v%[1]d = \"s%[1]d\"\n")), rep(n, id("_ = v%d\n")))
+		prog("string-constants", "", "s := \"\"\n"+rep(n, id("s += \"c%d\"\n"))+"_ = s\n")
+		prog("int-constants", "", "s := 0\n"+rep(n, id("s += 1000%d\n"))+"_ = s\n")
+		prog("float-constants", "", "s := 0.0\n"+rep(n, id("s += 1.5%d\n"))+"_ = s\n")
+		prog("int-locals", "", rep(n, id("a%[1]d := %[1]d\n"))+"println("+rep(n, id("a%d, "))+")\n")
+		prog("string-locals", "", rep(n, id("a%[1]d := \"%[1]d\"\n"))+"println("+rep(n, id("a%d, "))+")\n")
+		prog("interface-locals", "", rep(n, id("var a%[1]d interface{} = %[1]d\n"))+"println("+rep(n, id("a%d, "))+")\n")
+		prog("float-locals", "", rep(n, id("a%[1]d := %[1]d.5\n"))+"println("+rep(n, id("a%d, "))+")\n")
+		prog("parameters", "func f("+rep(n, id("a%d int, "))+") int { return a0 }\n", "_ = f("+rep(n, id("%d, "))+")\n")
+		prog("results", "func f() ("+rep(n, id("a%d int, "))+") { return }\n", rep(n-1, id("a%d, "))+"b := f()\n_ = b\n"+rep(n-1, id("_ = a%d\n")))
+		prog("variadic-arguments", "func f(a ...int) int { return len(a) }\n", "_ = f("+rep(n, id("%d, "))+")\n")
+		prog("struct-fields", "type T struct {\n"+rep(n, id("F%d int\n"))+"}\n", "var t T\n"+rep(n, id("t.F%[1]d = %[1]d\n"))+"_ = t\n")
+		prog("types", rep(n, id("type T%d int\n")), rep(n, id("_ = T%[1]d(%[1]d)\n")))
+		prog("switch-cases", "", "switch x := 5; x {\n"+rep(n, id("case %d:\n"))+"}\n")
+		prog("if-chain", "", "x := 5\nif x == -1 {\n"+rep(n, id("} else if x == %d {\n"))+"}\n")
+		prog("nested-blocks", "", rep(n, id("{ // %d\n"))+"println()\n"+rep(n, id("} // %d\n")))
+		prog("nested-parentheses", "", "_ = "+rep(n, id("( /*%d*/"))+"1"+rep(n, id(") /*%d*/"))+"\n")
+		prog("nested-calls", "func f(i int) int { return i }\n", "_ = "+rep(n, id("f( /*%d*/"))+"1"+rep(n, id(") /*%d*/"))+"\n")
+		prog("binary-chain", "", "x := 1\n_ = x"+rep(n, id(" + x /*%d*/"))+"\n")
+		prog("composite-elements", "", "_ = []int{"+rep(n, id("%d, "))+"}\n_ = map[int]string{"+rep(n, id("%[1]d: \"%[1]d\", "))+"}\n")
+		prog("labels", "", rep(n, id("L%d:\nfor {\nbreak\n}\n")))
+		prog("closures", "", rep(n, id("a%[1]d := %[1]d\n"))+"f := func() int { return 0"+rep(n, id(" + a%d"))+" }\n_ = f()\n")
+		prog("select-cases", "", "ch := make(chan int, 1)\nselect {\n"+rep(n, id("case <-ch: // %d\n"))+"default:\n}\n")
+		tm := func(name, src string) { tmpl = append(tmpl, tf("scale", fmt.Sprintf("%s-%d", name, n), src)) }
+		tm("macros", rep(n, id("{%% macro A%[1]d %%}%[1]d{%% end %%}"))+rep(n, id("{{ A%d() }}")))
+		tm("macros-with-parameters", rep(n, id("{%% macro A%[1]d(i int) %%}{{ i }}{%% end %%}"))+rep(n, id("{{ A%[1]d(%[1]d) }}")))
+		tm("variables", rep(n, id("{%% var v%[1]d = %[1]d %%}"))+rep(n, id("{{ v%d }}")))
+		tm("texts", rep(n, id("t%d{{ 1 }}")))
+		tm("shows", "{% var s = \"a\" %}"+rep(n, id("{{ s }}<a href=\"{{ s }}%d\">")))
+		tm("renders", rep(n, id("{{ render \"p.html\" }}<!-- %d -->")))
+		tm("if-chain", "{% var x = 5 %}{% if x == -1 %}"+rep(n, id("{%% else if x == %[1]d %%}%[1]d"))+"{% end %}")
+		tm("nested-ifs", rep(n, id("{%% if true %%}<!-- %d -->"))+"x"+rep(n, id("{%% end %%}<!-- %d -->")))
+		tm("usings", rep(n, id("{%% var u%[1]d = itea; using %%}%[1]d{%% end using %%}"))+rep(n, id("{{ u%d }}")))
+		tm("extending-macros", "{% extends \"layout.html\" %}{% macro M %}"+rep(n, id("{{ A%d() }}"))+"{% end %}"+rep(n, id("{%% macro A%[1]d %%}%[1]d{%% end %%}")))
+		tm("imported-macros", "{% import \"m.html\" %}"+rep(n, id("{{ MM() }}<!-- %d -->")))
+	}
+	return decl, tmpl
 }
 
 func goForms() []form {
@@ -679,6 +793,8 @@ func declForms() []form {
 			df("typeexpr", "field "+t, "type U struct { f "+t+" }"), df("typeexpr", "var-literal "+t, "var v = "+t+"{}"))
 	}
 	f = append(f, importSets()...)
+	scaleD, _ := scaleForms()
+	f = append(f, scaleD...)
 	for _, t := range typeExprs {
 		f = append(f, df("nilconv", "var-variadic "+t, "var v = func(a ..."+t+") int { return 0 }(("+t+")(nil))"))
 	}
@@ -895,7 +1011,7 @@ func modify(f form, all bool) []subject {
 	if f.syn != 't' {
 		endUsing = "end using"
 	}
-	if f.cat == "imports" || f.cat == "callee" { // in the roles made for them (see place)
+	if f.cat == "imports" || f.cat == "callee" || f.cat == "position" || f.cat == "scale" { // in the roles made for them (see place)
 		add("plain", 4, join(f.pieces))
 		return out
 	}
@@ -1274,6 +1390,26 @@ func roles() []role {
 			return withKind('q', mcase("package main\n\n"+s+"\n\n"+gPrelude+"func main() {}\n", pkgP))
 		}},
 	)
+	// the subject is a whole file
+	r = append(r,
+		role{"t:whole-file", 't', func(s string) BuildCase { return tcase("index.html", "index.html", s) }},
+		role{"t:whole-markdown-file", 't', func(s string) BuildCase {
+			return tcase("index.md", "index.md", strings.ReplaceAll(s, ".html\"", ".md\""), "layout.md", "# {{ M() }}", "m.md", formSupport["m.html"], "n.md", formSupport["n.html"])
+		}},
+		role{"t:whole-imported-file", 't', func(s string) BuildCase {
+			return tcase("index.html", "index.html", `{% import "imp.html" %}x`, "imp.html", s)
+		}},
+		role{"t:whole-partial", 't', func(s string) BuildCase {
+			return tcase("index.html", "index.html", `a{{ render "part.html" }}b`, "part.html", s)
+		}},
+		role{"t:whole-layout", 't', func(s string) BuildCase {
+			return tcase("index.html", "index.html", ext+"{% macro M %}m{% end %}", "layout.html", strings.ReplaceAll(s, "\"layout.html\"", "\"base.html\""), "base.html", "<html>{{ M() }}</html>")
+		}},
+		role{"d:whole-program", 'd', func(s string) BuildCase { return pcase("main.go", s) }},
+		role{"d:whole-imported-package", 'd', func(s string) BuildCase {
+			return mcase("package main\n\nimport \"m/p\"\n\nfunc main() { p.Main() }\n", strings.Replace(strings.Replace(s, "package main", "package p", 1), "func main()", "func Main()", 1))
+		}},
+	)
 	// package-level declarations
 	r = append(r,
 		role{"d:main-package", 'd', func(s string) BuildCase {
@@ -1303,6 +1439,10 @@ func roles() []role {
 		}},
 	)
 	return r
+}
+
+func beginsFile(role string) bool {
+	return strings.Contains(role, "no-prelude") || strings.Contains(role, "-first") || strings.Contains(role, "before-prelude") || strings.Contains(role, "whole")
 }
 
 var goStmt = regexp.MustCompile(`\bgo\s`)
@@ -1355,8 +1495,16 @@ func Forms(r *proto.Rand, quick bool, nRandom int) []FormCase {
 		if level == 4 { // import sets: the roles with a module; callees: the rich roles (natives, named imports)
 			for _, ro := range rs {
 				if s.cat == "imports" && (strings.Contains(ro.name, "module") || strings.Contains(ro.name, "imported-package")) ||
-					s.cat == "callee" && strings.Contains(ro.name, "rich") {
+					s.cat == "callee" && strings.Contains(ro.name, "rich") ||
+					s.cat == "scale" && strings.Contains(ro.name, "whole") {
 					emit(s, ro)
+				}
+				// position: where the subject is the beginning of a file; in the quick tier the main file always, the
+				// others one in two (by the seed) — except the plain "after" placements, which go everywhere
+				if s.cat == "position" && beginsFile(ro.name) {
+					if all || ro.name == "t:main-no-prelude" || !strings.Contains(s.form, " ") || strings.Contains(s.form, " after ") && r.Intn(2) == 0 || r.Intn(8) == 0 {
+						emit(s, ro)
+					}
 				}
 			}
 			return
@@ -1409,7 +1557,7 @@ func Forms(r *proto.Rand, quick bool, nRandom int) []FormCase {
 		if !quick { // the bulk forms: one in eight, chosen by the seed
 			var in2 []form
 			for _, f := range inner {
-				if (f.cat != "typeexpr" && f.cat != "exprs" && f.cat != "nilconv" && f.cat != "callee" && f.cat != "imports") || r.Intn(8) == 0 {
+				if (f.cat != "typeexpr" && f.cat != "exprs" && f.cat != "nilconv" && f.cat != "callee" && f.cat != "imports" && f.cat != "position" && f.cat != "scale") || r.Intn(8) == 0 {
 					in2 = append(in2, f)
 				}
 			}
